@@ -212,4 +212,66 @@ def c01(run):
         rnd=("compose", 3000, 60000))
 
 
-RECIPES = {"C01": c01, "C02": c02, "C03": c03, "C04": c04, "C05": c05, "C06": c06}
+ALL_GENS = [("Gen_Selector", "sel", 16, 1, ["EmitSel"], 1000), ("Gen_Window", "win", 8, 1, ["EmitWin"], 1000),
+            ("Gen_Agg", "agg", 1, 1, ["EmitAgg"], 1000), ("Gen_Bin", "bin", 1, 1, ["EmitBin"], 1000),
+            ("Gen_Func", "fn", 1, 1, ["EmitFn"], 1000), ("Gen_Compose", "cmp", 8, 2, ["EmitCmp"], 1000)]
+
+
+def all_scenarios(run, cap_quick, cap_thorough, only=None):
+    """Scenarios of the query families (emission only; their laws are checked by their own properties)."""
+    quick = run.tier == "quick"
+    out = []
+    for (module, name, modq, modt, invs, tickms) in ALL_GENS:
+        if only and name not in only:
+            continue
+        cfg = gen_cfg(run.tier if name != "cmp" else "quick", run.seed, modq if quick else modt, invs, tickms)
+        scs = vlib.generate(run, module, cfg, name, fam=run.prop, cap=(cap_quick if quick else cap_thorough), timeout=1500)
+        log("generated %s: %d scenarios" % (name, len(scs)))
+        out += scs
+    return out
+
+
+def session_validate(run, traces, clause_map, name="s"):
+    viols, stats = vlib.validate(run, "SessionTrace", traces, name)
+    st = sum_stats(stats)
+    ids = {v[0] for v in viols}
+    hdr = headers_of(traces, ids)
+    attribute(run, viols, hdr, clause_map)
+    run.cov["traces_validated_against_impl"] = st.get("sc", 0)
+    run.cov["samples"] = sample_headers(traces)
+    run.cov["session_stats"] = st
+    return st
+
+
+def mc_volcano(run):
+    cfg = "SPECIFICATION Spec\nCONSTANTS\n B = 3\n MaxN = %d\nINVARIANTS Contract ResultComplete BoundedRounds\nPROPERTIES Terminates\n" % (11 if run.tier == "quick" else 14)
+    ok, out, st = vlib.model_check(run, "Volcano", cfg, "volcano", timeout=600)
+    if not ok:
+        raise Infra("Volcano.tla violates its own properties (model error):\n" + out[-2000:])
+    log("Volcano model: %d distinct states" % st["distinct"])
+
+
+def c07(run):
+    binary = vlib.build()
+    mc_volcano(run)
+    scs = all_scenarios(run, 700, 15000)
+    quick = run.tier == "quick"
+    scs += vlib.gen_random(run, binary, "compose", 800 if quick else 20000, run.prop)
+    chunks = max(1, min(vlib.NCPU // 2, len(scs) // 300))
+    traces = vlib.replay(run, binary, "rangeinstant", scs, "ri", chunks=chunks)
+    st = session_validate(run, traces, lambda clause, fam: [run.prop] if clause == "Agree" else (["C13", run.prop] if clause == "ProcessDead" else []))
+    if st.get("obs", 0) == 0:
+        raise Infra("vacuous run: no observation")
+    return vlib.finish(run, "model_checking",
+                       rule=("Volcano.tla (batch mechanics: cursors, batches of B steps, positional pairing of sibling batches, coalesce, "
+                             "step-invariant replication, result assembly) is model-checked for every topology and 1..MaxN steps: stream "
+                             "contract, alignment, one point per grid step. Scenarios of all query generators (TLC) plus random ones are "
+                             "replayed as: the range query, instant queries at grid points on both sides of every batch boundary (all points "
+                             "for <= 12 steps) and sub-windows on the same grid; SessionTrace.tla (result = function of query, timestamp, "
+                             "data) is validated by TLC on every observation. distinct_nontrivial = distinct (scenario, timestamp) keys observed "
+                             "at least twice."),
+                       assumptions=["the Go comparator's classes (equal up to 1e-9) are the equality the property means", "queries using start()/end() are excluded as the property states"],
+                       distinct_nontrivial=st.get("obs", 0) - st.get("keys", 0))
+
+
+RECIPES = {"C01": c01, "C07": c07, "C02": c02, "C03": c03, "C04": c04, "C05": c05, "C06": c06}
